@@ -1,9 +1,137 @@
 import StraxModel.Driver.Parse
+import StraxModel.Model.Peaks
 namespace Strax.Driver
-open Strax
+open Strax Strax.Peaks
 
-/-- ops of property C19 (stub: no ops yet) -/
+namespace C19
+
+/-- `p/q` or `p` -/
+def parseRat (s : String) : Option Rat :=
+  match s.splitOn "/" with
+  | [a] => do pure ((← a.toInt?) : Rat)
+  | [a, b] => do
+    let n ← a.toInt?; let d ← b.toNat?
+    if d = 0 then none else pure ((n : Rat) / (d : Rat))
+  | _ => none
+
+def showRat (r : Rat) : String := if r.den = 1 then toString r.num else s!"{r.num}/{r.den}"
+
+def parseRats (s : String) (sep : String := ",") : Option (List Rat) := (splitList s sep).mapM parseRat
+def showRats (l : List Rat) (sep : String := ",") : String := if l.isEmpty then "-" else sep.intercalate (l.map showRat)
+
+/-- `time:length:dt:channel:area[:w1;w2;…]` -/
+def parseHit (tok : String) : Option Hit :=
+  match tok.splitOn ":" with
+  | [t, l, d, c, a] => do pure { time := ← t.toInt?, length := ← l.toInt?, dt := ← d.toInt?, channel := ← c.toNat?, area := ← parseRat a }
+  | [t, l, d, c, a, w] => do
+    pure { time := ← t.toInt?, length := ← l.toInt?, dt := ← d.toInt?, channel := ← c.toNat?, area := ← parseRat a,
+           wave := ← parseRats w ";" }
+  | _ => none
+
+def parseHits (s : String) : Option (List Hit) := (splitList s ",").mapM parseHit
+
+/-- `time:length:dt:area:nhits:apc;…:data;…` -/
+def parsePeak (tok : String) : Option Peak :=
+  match tok.splitOn ":" with
+  | [t, l, d, a, n, apc, data] => do
+    pure { time := ← t.toInt?, length := ← l.toInt?, dt := ← d.toInt?, area := ← parseRat a, nHits := ← n.toInt?,
+           apc := ← parseRats apc ";", maxGap := 0, data := ← parseRats data ";" }
+  | _ => none
+
+def parsePeaks (s : String) : Option (List Peak) := (splitList s ",").mapM parsePeak
+
+def showPeak (p : Peak) : String :=
+  s!"{p.time}:{p.length}:{p.dt}:{showRat p.area}:{p.nHits}:{p.maxGap}:{showRats p.apc ";"}:{showRats p.data ";"}"
+
+def showPeaks (ps : List Peak) : String := if ps.isEmpty then "-" else ",".intercalate (ps.map showPeak)
+
+def parsePair (tok : String) : Option (Nat × Nat) :=
+  match tok.splitOn ":" with
+  | [a, b] => do pure (← a.toNat?, ← b.toNat?)
+  | _ => none
+
+def parseMask (s : String) : Option (Option (List Bool)) :=
+  if s == "-" then some none
+  else do
+    let bs ← s.toList.mapM fun c => if c == '1' then some true else if c == '0' then some false else none
+    pure (some bs)
+
+def showMask (m : List Bool) : String := if m.isEmpty then "-" else String.ofList (m.map fun b => if b then '1' else '0')
+
+/-- `time:length:dt:area:s1;s2;…` -/
+def parseSplitPeak (tok : String) : Option (Peak × List Int) :=
+  match tok.splitOn ":" with
+  | [t, l, d, a, sp] => do
+    pure ({ time := ← t.toInt?, length := ← l.toInt?, dt := ← d.toInt?, area := ← parseRat a, nHits := 0,
+            apc := [], maxGap := 0, data := [] }, ← (splitList sp ";").mapM (·.toInt?))
+  | _ => none
+
+def showFrag (r : Frag) : String := s!"{r.time}:{r.length}:{r.dt}"
+def showFrags (l : List Frag) : String := if l.isEmpty then "-" else ",".intercalate (l.map showFrag)
+
+def showIntervals (l : List (Int × Int)) : String := ";".intercalate (l.map fun q => s!"{q.1}:{q.2}")
+
+end C19
+
+open C19 in
+/-- ops of property C19 (theory T15 Peaks); every op name starts with `c19.` -/
 def handleC19 : List String → Option String
+  | ["c19.findpeaks", hits, toPe, gap, left, right, minArea, minCh, maxDur, nCh, nS] => do
+    let hits ← parseHits hits; let toPe ← parseRats toPe
+    let P : FPParams := { gap := ← gap.toInt?, left := ← left.toInt?, right := ← right.toInt?, minArea := ← parseRat minArea,
+                          minChannels := ← minCh.toInt?, maxDuration := ← maxDur.toInt? }
+    pure <| showExcept showPeaks (findPeaks P toPe (← nCh.toNat?) (← nS.toNat?) hits)
+  | ["c19.clusters", hits, toPe, gap, left, right, maxDur, nCh] => do
+    -- ghost view: the hit groups behind the closed candidates (start times of the members)
+    let hits ← parseHits hits; let toPe ← parseRats toPe
+    let P : FPParams := { gap := ← gap.toInt?, left := ← left.toInt?, right := ← right.toInt?, minArea := 0,
+                          minChannels := 1, maxDuration := ← maxDur.toInt? }
+    let cs := scanHits P toPe (← nCh.toNat?) none hits
+    pure <| "ok " ++ " ".intercalate (cs.map fun c => showInts (c.members.map (·.time)))
+  | ["c19.store", nS, length, dt, buf] => do
+    let buf ← parseRats buf
+    let p : Peak := { time := 0, length := ← length.toInt?, dt := ← dt.toInt?, area := 0, apc := [], nHits := 0, maxGap := 0,
+                      data := zeros (← nS.toNat?) }
+    let q := storeDownsampled p buf
+    pure s!"ok {q.length} {q.dt} {showRats q.data}"
+  | ["c19.sumwf", dt, toPe, nCh, peaks, hits] => do
+    let peaks ← parsePeaks peaks; let hits ← parseHits hits; let toPe ← parseRats toPe
+    pure <| showExcept showPeaks (sumWaveform (← dt.toInt?) toPe (← nCh.toNat?) peaks hits)
+  | ["c19.merge", nCh, nS, peaks, mask, ranges] => do
+    let peaks ← parsePeaks peaks; let mask ← parseMask mask; let ranges ← (splitList ranges ",").mapM parsePair
+    pure <| showExcept (fun l => if l.isEmpty then "-" else ",".intercalate (l.map fun q => s!"{showPeak q.1}:{q.2}"))
+      (mergePeaks (← nCh.toNat?) (← nS.toNat?) peaks mask ranges)
+  | ["c19.replace", orig, merge] => do
+    let orig ← parseRows orig; let merge ← parseRows merge
+    pure <| showExcept showRows (replaceMerged orig merge)
+  | ["c19.windows", things, containers] => do
+    let t ← parseRows things; let c ← parseRows containers
+    pure <| showExcept (fun l => if l.isEmpty then "-" else ",".intercalate (l.map fun q => s!"{q.1}:{q.2}")) (touchingWindows t c)
+  | ["c19.lone", toPe, peaks, lone] => do
+    let peaks ← parsePeaks peaks; let lone ← parseHits lone; let toPe ← parseRats toPe
+    pure <| showExcept showPeaks (addLoneHits toPe peaks lone)
+  | ["c19.split", origDt, minArea, peaks] => do
+    let ps ← (splitList peaks ",").mapM parseSplitPeak
+    pure <| showExcept (fun q => s!"{showFrags q.1} {showMask q.2}") (splitPeaksCore (← origDt.toInt?) (← parseRat minArea) ps)
+  | ["c19.sma", a, w] => do
+    pure s!"ok {showRats (symmetricMovingAverage (← parseRats a) (← w.toNat?))}"
+  | ["c19.smaold", dropZero, clamp, a, w] => do
+    pure s!"ok {showRats (smaGen (← parseBool dropZero) (← parseBool clamp) (← parseRats a) (← w.toNat?))}"
+  | ["c19.iof", wave, length, area, fractions] => do
+    let wave ← parseRats wave
+    let p : Peak := { time := 0, length := ← length.toInt?, dt := 1, area := ← parseRat area, apc := [], nHits := 0, maxGap := 0, data := wave }
+    pure s!"ok {showRats (indexOfFraction p (← parseRats fractions))}"
+  | ["c19.widths", wave, length, dt, area, nW] => do
+    let wave ← parseRats wave
+    let p : Peak := { time := 0, length := ← length.toInt?, dt := ← dt.toInt?, area := ← parseRat area, apc := [], nHits := 0, maxGap := 0, data := wave }
+    let (m, w, d) := computeWidths p (← nW.toNat?)
+    pure s!"ok {showRat m} {showRats w} {showRats d}"
+  | ["c19.hdr", data, fractions, upper, bufSize] => do
+    let r := highestDensityRegion (← parseRats data) (← parseRats fractions) (← parseBool upper) (← bufSize.toNat?)
+    pure <| showExcept (fun rows => if rows.isEmpty then "-" else " ".intercalate (rows.map fun q => showIntervals q.1)) r
+  | ["c19.hdramp", data, fractions, upper, bufSize] => do
+    let r := highestDensityRegion (← parseRats data) (← parseRats fractions) (← parseBool upper) (← bufSize.toNat?)
+    pure <| showExcept (fun rows => showRats (rows.map (·.2))) r
   | _ => none
 
 end Strax.Driver
